@@ -16,6 +16,7 @@ import ast
 import re
 
 from .common import AnalysisError
+from .names import N
 from .facts import facts, FuncInfo
 
 PARSER_CLASS = "gherkin.parser.Parser"
@@ -229,7 +230,7 @@ class ParserTable:
                 continue
             if isinstance(s, ast.Expr):
                 cs = _call_self(s.value)
-                if cs and cs[0] == "add_error":
+                if cs and cs[0] == N.ADD_ERROR:
                     arg = cs[1][1] if len(cs[1]) == 2 else None
                     t.events.append(("add_error", arg.id if isinstance(arg, ast.Name) else self.src(s)))
                     continue
@@ -303,7 +304,7 @@ class ParserTable:
         for i, s in enumerate(lb):
             if isinstance(s, ast.Assign) and len(s.targets) == 1 and isinstance(s.targets[0], ast.Name):
                 cs = _call_self(s.value)
-                if cs and cs[0] == "read_token":
+                if cs and cs[0] == N.READ_TOKEN:
                     tok_var = s.targets[0].id
                     read_idx = i
                     continue
@@ -381,7 +382,7 @@ class ParserTable:
         for s in post:
             if isinstance(s, ast.Expr) and isinstance(s.value, ast.Call) and isinstance(s.value.func, ast.Attribute):
                 fn = s.value.func
-                if isinstance(fn.value, ast.Attribute) and fn.value.attr == "token_queue":
+                if isinstance(fn.value, ast.Attribute) and fn.value.attr == N.CTX_QUEUE:
                     requeue.append((fn.attr, self.src(s.value.args[0]) if s.value.args else None, s.lineno))
                     continue
             if isinstance(s, ast.Return):
@@ -410,7 +411,7 @@ class ParserTable:
         return info
 
     def _extract_dispatch(self) -> None:
-        fi = self.cls.methods.get("match_token")
+        fi = self.cls.methods.get(N.MATCH_TOKEN)
         if fi is None:
             raise AnalysisError("anchor vanished: Parser.match_token")
         self.dispatch_fi = fi
